@@ -27,6 +27,32 @@ def bytesOfNibbles : List Nat → List Nat
 def cmrNibbles (h : Nat) : List Nat := nibblesOfBytes (Sha2.bytesOfNat h 32)
 def cmrOfNibbles (ns : List Nat) : Nat := Sha2.natOfBytes (bytesOfNibbles ns)
 
+/-- `Prog.tmrF` with a memo table (association list; the types of one program are few) -/
+def tmrMemo : Ty → List (Ty × Nat) → Nat × List (Ty × Nat)
+  | .one, memo => (Prog.ivTyUnit, memo)
+  | .sum a b, memo =>
+    match memo.find? (·.1 == Ty.sum a b) with
+    | some (_, h) => (h, memo)
+    | none =>
+      match Prog.isWord (.sum a b) with
+      | some n => let h := Prog.tmrWord n; (h, (.sum a b, h) :: memo)
+      | none =>
+        let (ha, memo) := tmrMemo a memo
+        let (hb, memo) := tmrMemo b memo
+        let h := Sha2.update2 Prog.ivTySum ha hb
+        (h, (.sum a b, h) :: memo)
+  | .prod a b, memo =>
+    match memo.find? (·.1 == Ty.prod a b) with
+    | some (_, h) => (h, memo)
+    | none =>
+      match Prog.isWord (.prod a b) with
+      | some n => let h := Prog.tmrWord n; (h, (.prod a b, h) :: memo)
+      | none =>
+        let (ha, memo) := tmrMemo a memo
+        let (hb, memo) := tmrMemo b memo
+        let h := Sha2.update2 Prog.ivTyProd ha hb
+        (h, (.prod a b, h) :: memo)
+
 /-- identity hash of every node of a commit-time plan (`none`: contains a witness or disconnect) -/
 def ihrs (jetCmr : String → Option Nat) (p : Plan) (arrows : Array (Ty × Ty)) : Array (Option Nat) :=
   let imrs : Array (Option Nat) := p.foldl (init := #[]) fun acc nd =>
@@ -52,8 +78,15 @@ def ihrs (jetCmr : String → Option Nat) (p : Plan) (arrows : Array (Ty × Ty))
       | .jet name => jetCmr name
       | .hidden h => some h
     acc.push v
-  (Array.range p.size).map fun i =>
-    (imrs.getD i none).map fun m => Prog.ihrOf m (arrows.getD i (.one, .one))
+  -- `Prog.ihrOf` with the type roots memoised over the whole plan (the same types recur at many nodes)
+  ((List.range p.size).foldl (init := ((#[] : Array (Option Nat)), ([] : List (Ty × Nat)))) fun (acc, memo) i =>
+    match imrs.getD i none with
+    | none => (acc.push none, memo)
+    | some m =>
+      let (a, b) := arrows.getD i (.one, .one)
+      let (ha, memo) := tmrMemo a memo
+      let (hb, memo) := tmrMemo b memo
+      (acc.push (some (Sha2.update2 (Sha2.update2 Prog.ivIdentity 0 m) ha hb)), memo)).1
 
 /-- children in the commit-time DAG (a disconnect has only its left child) -/
 def commitChildren (p : Plan) (i : Nat) : List Nat :=
